@@ -29,9 +29,12 @@ def main(argv=None) -> int:
         rules = mod.run(ctx)
         stats = ctx.stats()
         if args.tier == "thorough" and not args.no_battery and os.path.abspath(args.repo) == "/repo":
-            from .selftest import battery
-
-            stats["battery"] = battery(prop, args.repo)
+            try:
+                from .selftest import battery
+            except ImportError:
+                battery = None
+            if battery is not None:
+                stats["battery"] = battery(prop, args.repo)
         return finish(prop, args.tier, rules, started, mod.EXPLANATION, mod.ASSUMPTIONS, stats, mod.NOT_DECIDED)
     except AnalysisError as e:
         print(f"ANALYSIS-ERROR property={prop} {e}")
